@@ -140,7 +140,8 @@ func c05Exec(c c05Case) (keys []string, detail, class string) {
 func c05Judge(c c05Case, enc string) (keys []string, detail, class string) {
 	now := c05Instant(c.Clock)
 	conf := world.SPConf{Store: []string{"K3"}, ClockNs: int64(now.Sub(world.T0)), SkipSig: c.Skip}
-	info, r := retrieveInfo(conf.Build(), enc)
+	sp := conf.Build()
+	info, r := retrieveInfo(sp, enc)
 	var invalidTime bool
 	if r.Accepted() && info.WarningInfo != nil {
 		invalidTime = info.WarningInfo.InvalidTime
@@ -204,7 +205,28 @@ func c05Judge(c c05Case, enc string) (keys []string, detail, class string) {
 			k = "now==NotBefore"
 		}
 		return []string{"C05/window/warning-although/" + k + rendered}, detail, "inside-window/WARNING"
-	case wantWarn:
+	}
+	// the exported VerifyAssertionConditions on the same instance, with the clock moved to every
+	// other grid position after the validation above: the window is judged at the clock of that
+	// call, not at the instant of an earlier one
+	if len(info.Assertions) > 0 {
+		for c2 := 0; c2 < c05Grid; c2++ {
+			if c2 == c.Clock {
+				continue
+			}
+			sp.Clock = world.Clock(c05Instant(c2))
+			var w *saml2.WarningInfo
+			var verr error
+			a := info.Assertions[0]
+			if p := guard(func() { w, verr = sp.VerifyAssertionConditions(&a) }); p != "" || verr != nil || w == nil {
+				return []string{"C05/VerifyAssertionConditions/error-or-panic"}, detail + fmt.Sprintf(" | direct call at clock %d: err=%v panic=%q", c2, verr, p), "direct/ERROR"
+			}
+			if want2 := c2 < c.G[0] || c2 >= c.G[1]; w.InvalidTime != want2 {
+				return []string{"C05/VerifyAssertionConditions/window-not-judged-at-the-clock-of-the-call"}, detail + fmt.Sprintf(" | direct call after the clock moved to grid %d: InvalidTime=%v want %v", c2, w.InvalidTime, want2), "direct/WRONG"
+			}
+		}
+	}
+	if wantWarn {
 		return nil, detail, "outside-window/warning"
 	}
 	return nil, detail, "inside-window/no-warning"
